@@ -1,5 +1,3 @@
-use crate::state::ibc::PacketLifecycleStatus;
-use crate::milky_way::staking::BatchStatus;
 use crate::osmosis_std::types::cosmos::bank::v1beta1::MsgSend;
 use crate::osmosis_std::types::cosmos::base::v1beta1::Coin as OsmoCoin;
 use crate::osmosis_std::types::ibc::applications::transfer::v1::MsgTransfer;
@@ -21,14 +19,14 @@ pub open spec fn env_ok(env: Env) -> bool { env.block.time.0 < 0x8000_0000_0000_
 pub open spec fn memo_of(contract: Seq<char>) -> Seq<char> {
     "{\"ibc_callback\":\""@ + (contract + "\"}"@)
 }
-pub open spec fn is_transfer_msg(m: MsgTransfer, s: StoreView, env: Env, receiver: Seq<char>, token: Coin) -> bool {
-    &&& m.source_channel == cfg(s).protocol_chain_config.ibc_channel_id
+pub open spec fn is_transfer_msg(m: MsgTransfer, s: StoreView, env: Env, receiver: Seq<char>, denom: Seq<char>, amount: nat) -> bool {
+    &&& m.source_channel@ == cfg(s).protocol_chain_config.ibc_channel_id@
     &&& m.source_port@ == "transfer"@
     &&& m.token is Some
-    &&& m.token->Some_0.denom == token.denom
-    &&& m.token->Some_0.amount@ == dec(token.amount.0 as nat)
+    &&& m.token->Some_0.denom@ == denom
+    &&& m.token->Some_0.amount@ == dec(amount)
     &&& m.receiver@ == receiver
-    &&& m.sender == env.contract.address.0
+    &&& m.sender@ == env.contract.address.0@
     &&& m.timeout_height is None
     &&& m.timeout_timestamp == env.block.time.0 + IBC_TIMEOUT_NANOS()
     &&& m.memo@ == memo_of(env.contract.address.0@)
@@ -43,12 +41,15 @@ pub open spec fn default_sub_id(env: Env) -> nat {
 pub open spec fn sub_id_of(env: Env, id: Option<u64>) -> nat {
     match id { Some(i) => i as nat, None => default_sub_id(env) }
 }
-pub open spec fn is_transfer_sub(m: SubMsg, id: nat, s: StoreView, env: Env, receiver: Seq<char>, token: Coin) -> bool {
+pub open spec fn is_waiting(w: IbcWaitingForReply, receiver: Seq<char>, denom: Seq<char>, amount: nat) -> bool {
+    w.receiver@ == receiver && w.amount.denom@ == denom && w.amount.amount.0 == amount
+}
+pub open spec fn is_transfer_sub(m: SubMsg, id: nat, s: StoreView, env: Env, receiver: Seq<char>, denom: Seq<char>, amount: nat) -> bool {
     &&& m.id == id
     &&& m.gas_limit is None
     &&& m.reply_on == ReplyOn::Always
     &&& m.msg is OsmoTransfer
-    &&& is_transfer_msg(m.msg->OsmoTransfer_0, s, env, receiver, token)
+    &&& is_transfer_msg(m.msg->OsmoTransfer_0, s, env, receiver, denom, amount)
 }
 
 } // verus!
@@ -120,4 +121,9 @@ pub open spec fn is_plain(m: SubMsg) -> bool { m.id == 0 && m.gas_limit is None 
 pub open spec fn is_monitor(c: Config, a: Addr) -> bool {
     exists|i: int| 0 <= i < c.monitors@.len() && c.monitors@[i] == a
 }
+} // verus!
+verus! {
+// ------------------------------------------------------------------ exchange-rate formulas (C04)
+pub open spec fn mint_of(tn: nat, tl: nat, x: nat) -> nat { if tn == 0 { x } else { (tl * x) / tn } }
+pub open spec fn unbond_of(tn: nat, tl: nat, b: nat) -> nat { if b == 0 { 0 } else { (tn * b) / tl } }
 } // verus!
